@@ -94,6 +94,9 @@ def run(ctx):
         for op in ('Tst0', 'Tst1', 'Cmpv'):
             flags_only(f, {'$op.name': albop[op]}, '%s/%d %s' % (f['name'], len(f['params']), op), allow=())
     # ---- A2
+    _have = {f['name'] for f in F.values() if f.get('cls') == 'Teakra::Interpreter'}
+    _gone = sorted(x for x in T['plain_writers'] if x not in _have)
+    ctx.require(not _gone, 'listed plain accumulator writers vanished (inlined into their callers?): %s' % _gone)
     for op in T['alm_saturating'] + T['alm_plain'] + T['alm_no_acc'] + T['alm_flags_only']:
         ctx.inst(A2)
         w, c = summary(ag, {'$op': almop[op]})
@@ -166,6 +169,18 @@ def run(ctx):
     if not okp or not seqs:
         ctx.report(A2, f, f['body'], 'SatAndSetAccAndFlag', 'flags are not derived from the unsaturated value before saturation-on-write: '
                    + str([(boolform.show(c)[-30:], [e[1][-50:] for e in sq]) for c, sq, p_ in seqs])[:300])
+    # saturation on read: both read helpers (with and without the limit flag) saturate exactly when MOD0.SAT is clear
+    # (the write helper above uses MOD0.SATA): siblings must test the same mode bit
+    SAT = boolform.A('(. f:Teakra::Interpreter::regs %s::sat)' % RS)
+    for nm, satfn in (('GetAndSatAcc(RegName)', 'SaturateAcc'), ('GetAndSatAccNoFlag(RegName) const', 'SaturateAccNoFlag')):
+        g = ctx.fn(I + nm)
+        ctx.inst(A2)
+        rets = summ.summary(ctx, g, asserts='ignore').returns()
+        GA = '(call Teakra::Interpreter::GetAcc on this $0)'
+        want = {'(call Teakra::Interpreter::%s on this %s)' % (satfn, GA): boolform.neg(SAT), GA: SAT}
+        if set(rets) != set(want) or any(boolform.equivalent(rets[k], want[k]) is not True for k in want):
+            ctx.report(A2, g, g['body'], nm.split('(')[0], 'saturation on read is not `sat == 0 ? %s(acc) : acc`: %s'
+                       % (satfn, {k[-60:]: boolform.show(v)[-60:] for k, v in rets.items()}))
     f = ctx.fn(I + 'SetAccAndFlag(RegName,unsigned long)')
     ctx.inst(A2)
     if render_stmt(f['body'], f) != '{(call Teakra::Interpreter::SetAccFlag on this $1) (call Teakra::Interpreter::SetAcc on this $0 $1)}':
